@@ -1524,6 +1524,15 @@ func init() {
 				if f.refused() {
 					ks.alts, ks.slots, ks.work = 1, ks.tokens, 0
 				}
+				if strings.HasPrefix(f.name, "allowed-entry-") {
+					// the entries of these families are long texts themselves: their tokens are scanned and parsed like the
+					// expression's (the cost model's default assumes two tokens per entry)
+					for _, x := range a {
+						if es, ok := modelStats(strings.ReplaceAll(x, " AND ", " OR ")); ok {
+							ks.tokens += es.tokens
+						}
+					}
+				}
 				for fn := 0; fn < 3; fn++ {
 					if f.refused() && fn != 0 {
 						continue
